@@ -11,7 +11,7 @@ pub fn prop() -> Prop {
     Prop {
         id: "C15",
         level: "exploration",
-        rule: "point multisets of 0..=2000 points: random clouds, 1..5 physical tracks (shared direction with different z, opposite directions), the degenerate families of C14, duplicates of single points and of whole tracks, lines of exactly 12/13/14 points, points exactly 3 cm apart -> cluster_spacepoints; oracle: multiset equality (raw bits of r, phi, z with -0.0 normalised) input = clusters + remainder, every cluster >= 13 points and connected under distance <= 3 cm (union-find on SpacePoint::distance, +1e-12 m leniency). Track lists of 0..=8 tracks -> find_vertices; oracle: input multiset = primary + secondaries + remainder (helix parameters via hook), primary only with >= 2 tracks. Non-trivial = distinct inputs yielding >= 1 cluster or a non-empty remainder with duplicates, plus distinct track lists. Also: tracks that fail the vertexing pre-filters (short arc, far from the beamline) inside the z span of a vertex. Round 4: track lists holding two pieces of one trajectory (bit-identical helix, different t ranges: a stub under the length cut or a second long piece), the stub listed before or after. Round 5: pieces of 7..12 hits separated by holes of 3 cm +- 1e-10..1e-6 m. Round 6: compact pieces (a few mm long) with a hole of 3.01..5.4 cm, all within 3 cm of their centroid.",
+        rule: "point multisets of 0..=2000 points: random clouds, 1..5 physical tracks (shared direction with different z, opposite directions), the degenerate families of C14, duplicates of single points and of whole tracks, lines of exactly 12/13/14 points, points exactly 3 cm apart -> cluster_spacepoints; oracle: multiset equality (raw bits of r, phi, z with -0.0 normalised) input = clusters + remainder, every cluster >= 13 points and connected under distance <= 3 cm (union-find on SpacePoint::distance, +1e-12 m leniency). Track lists of 0..=8 tracks -> find_vertices; oracle: input multiset = primary + secondaries + remainder (helix parameters via hook), primary only with >= 2 tracks. Non-trivial = distinct inputs yielding >= 1 cluster or a non-empty remainder with duplicates, plus distinct track lists. Also: tracks that fail the vertexing pre-filters (short arc, far from the beamline) inside the z span of a vertex. Round 4: track lists holding two pieces of one trajectory (bit-identical helix, different t ranges: a stub under the length cut or a second long piece), the stub listed before or after. Round 5: pieces of 7..12 hits separated by holes of 3 cm +- 1e-10..1e-6 m. Round 6: compact pieces (a few mm long) with a hole of 3.01..5.4 cm, all within 3 cm of their centroid. Round 8: 58..72 separate prongs in one call (more than 64 clusters), points inside the inner cathode radius and beyond the wires.",
         assumptions: &["SpacePoint::distance is the linkage metric (as in the library), threshold relaxed by 1e-12 m so the oracle is never stricter than the code"],
         profiles: release_only,
         shards: shards16,
